@@ -374,6 +374,11 @@ func (s *Sim) parkCall(c *Call) {
 
 // Leave is called after the operation executed; with a slow response the goroutine parks again.
 func (s *Sim) Leave(c *Call) {
+	if c != nil && c.res.fault == FCrashAfter {
+		// single-fault sweep: the process dies right after this call took effect
+		s.pendingCrash = true
+		c.res.slow = true
+	}
 	if c == nil || !c.res.slow {
 		return
 	}
